@@ -99,7 +99,14 @@ func runC05(rc *RunCtx, faulty bool) *simkit.Violation {
 			case 0, 1:
 				b[p] = a[p]
 			case 2:
-				b[p] = append([]byte("changed "), a[p]...)
+				if len(a[p]) > 0 && t.Bool(1, 2) {
+					// same path, same size, other content
+					c := append([]byte(nil), a[p]...)
+					c[t.Choose(len(c))] ^= 0x5a
+					b[p] = c
+				} else {
+					b[p] = append([]byte("changed "), a[p]...)
+				}
 			case 3: // removed
 			case 4: // renamed
 				b[p+".renamed"] = a[p]
